@@ -1643,6 +1643,36 @@ tail_subject!(TailBox, Box<(u32, u64)>, |rng| Box::new((nz32(rng), nz64(rng))));
 tail_subject!(TailCell, std::cell::RefCell<(u16, u64)>, |rng| std::cell::RefCell::new(((nz32(rng) as u16) | 0x0101, nz64(rng))));
 tail_subject!(TailF64, f64, |rng| f64::from_bits(nz64(rng) & 0x7fef_ffff_ffff_ffff));
 
+// "VerGap": written and read at version 2; one field was a `u8` in version 1 only and did not exist in version 0 (a
+// gap below the `savefile_versions_as` range): a header whose version field is damaged to 0 or 1 makes the loader
+// take the per-version arms that no current-version file ever reaches.
+#[derive(Savefile, Debug, PartialEq, Clone)]
+pub struct VerGap {
+    pub a: u32,
+    #[savefile_versions_as = "1..1:u8"]
+    #[savefile_versions = "2.."]
+    pub b: u16,
+    #[savefile_versions = "1.."]
+    pub c: u8,
+    pub tail: Vec<u16>,
+}
+impl ZooVal for VerGap {
+    const VERSION: u32 = 2;
+    fn gen(rng: &mut Rng, sc: u8, hint: usize) -> Self {
+        VerGap { a: rng.next_u64() as u32, b: rng.next_u64() as u16, c: rng.next_u64() as u8, tail: (0..len_for(rng, sc.min(2), hint / 4)).map(|_| rng.next_u64() as u16).collect() }
+    }
+    fn walk(&self, w: &mut Walker) {
+        w.prim(4);
+        if w.collection("Vec<u16>", self.tail.len(), 2) {
+            let mut acc = 0u64;
+            for x in &self.tail {
+                acc = acc.wrapping_add(*x as u64);
+            }
+            std::hint::black_box(acc);
+        }
+    }
+}
+
 macro_rules! subj {
     ($t:ty, $n:expr) => {
         &Subj::<$t>($n, std::marker::PhantomData) as &dyn Subject
@@ -1672,6 +1702,7 @@ pub fn subjects() -> Vec<&'static dyn Subject> {
         &UpSubj as &dyn Subject,
         subj!(VerRec, "VerRec"),
         subj!(Names, "Names"),
+        subj!(VerGap, "VerGap"),
         subj!(TailSock, "TailSock"),
         subj!(TailIp, "TailIp"),
         subj!(TailTime, "TailTime"),
